@@ -4,3 +4,35 @@
 def generic(r, ob, model):
     from pyvc.native import replay_contract
     return replay_contract(r, ob, model)
+
+
+def c16_schedule(g):
+    """Replay a failed atomicity obligation as a concrete two-thread line schedule on the real generator."""
+    from pyvc import atom
+    from props.ground import real
+    if "SequenceGenerator" in g.oid:
+        h = real("diameter.node._helpers")
+        code = h.SequenceGenerator.next_sequence.__code__
+
+        def make():
+            gen = h.SequenceGenerator()
+            gen._sequence = 5
+            return [gen.next_sequence, gen.next_sequence]
+        r = atom.search_schedules(make, [code], lambda res: res[0] != res[1] and None not in res, max_len=6)
+    elif "SessionGenerator" in g.oid:
+        h = real("diameter.node._helpers")
+        code = h.SessionGenerator.next_id.__code__
+
+        def make():
+            gen = h.SessionGenerator("n")
+            gen._sequence = 5
+            return [gen.next_id, gen.next_id]
+        r = atom.search_schedules(make, [code], lambda res: res[0] != res[1] and None not in res, max_len=6)
+    else:
+        return None
+    if r is None:
+        return {"status": "not-reproduced", "detail": "no line schedule up to length 6 yields equal identifiers"}
+    sched, res = r
+    return {"status": "reproduced", "detail": f"two concurrent callers obtain the same identifier {res} "
+            f"under the line schedule {sched} (thread index per executed source line, start value 5)",
+            "schedule": sched, "results": res}
